@@ -7,16 +7,19 @@ From XV Require Import lib.Lts C18.Model C18.Proofs.
 
 Definition accepted (tr : list label) : bool := match exec tr with Some _ => true | None => false end.
 
+(* Channel 0 is made for address 0 by the first Client.Join *)
+Definition join0 : list label := [LNew 0 0; LCall 0 KJoin 0; LPush 0; LPushed 0].
+
 (* TestJoinPartMuc: join, self-presence, leave, unavailable presence; Joined() true in between *)
 Definition ex_join_part : list label :=
-  [LCall 0 KJoin 0; LPush 0; LPushed 0; LDeliver (PresAvail 0); LRet 0 OSuccess; LQuery 0 true;
+  join0 ++ [LDeliver (PresAvail 0); LRet 0 OSuccess; LQuery 0 true;
    LCall 1 KLeave 0; LDeliver (PresUnavail 0); LRet 1 OSuccess; LQuery 0 false].
 Example ex_join_part_ok : accepted ex_join_part = true.
 Proof. vm_compute. reflexivity. Qed.
 
 (* TestJoinError *)
 Definition ex_join_error : list label :=
-  [LCall 0 KJoin 0; LPush 0; LPushed 0; LDeliver (ErrReply 0); LRet 0 OStanzaErr; LQuery 0 false].
+  join0 ++ [LDeliver (ErrReply 0); LRet 0 OStanzaErr; LQuery 0 false].
 Example ex_join_error_ok : accepted ex_join_error = true.
 Proof. vm_compute. reflexivity. Qed.
 
@@ -25,27 +28,29 @@ Example ex_part_error_ok : accepted (refute_trace ++ [LQuery 0 false]) = true.
 Proof. vm_compute. reflexivity. Qed.
 
 (* TestJoinCancel: a context cancelled before the call publishes *)
-Example ex_join_cancel_ok : accepted [LCall 0 KJoin 0; LCancel 0; LRet 0 OCtxErr] = true.
+Example ex_join_cancel_ok : accepted [LNew 0 0; LCall 0 KJoin 0; LCancel 0; LRet 0 OCtxErr] = true.
 Proof. vm_compute. reflexivity. Qed.
-Example ex_join_cancel_ok2 : accepted [LCall 0 KJoin 0; LCancel 0; LPush 0; LPushed 0; LRet 0 OCtxErr] = true.
+Example ex_join_cancel_ok2 : accepted (join0 ++ [LCancel 0; LRet 0 OCtxErr]) = true.
 Proof. vm_compute. reflexivity. Qed.
 
 (* the model refuses what the property forbids *)
-Example ex_no_success_without_presence : accepted [LCall 0 KJoin 0; LPush 0; LPushed 0; LRet 0 OSuccess] = false.
+Example ex_no_success_without_presence : accepted (join0 ++ [LRet 0 OSuccess]) = false.
 Proof. vm_compute. reflexivity. Qed.
-Example ex_no_success_for_other_room : accepted [LCall 0 KJoin 0; LPush 0; LPushed 0; LDeliver (PresAvail 1); LRet 0 OSuccess] = false.
+Example ex_no_success_for_other_room : accepted (join0 ++ [LDeliver (PresAvail 1); LRet 0 OSuccess]) = false.
 Proof. vm_compute. reflexivity. Qed.
-Example ex_no_joined_before_success : accepted [LCall 0 KJoin 0; LPush 0; LPushed 0; LQuery 0 true] = false.
+Example ex_no_joined_before_success : accepted (join0 ++ [LQuery 0 true]) = false.
 Proof. vm_compute. reflexivity. Qed.
-Example ex_no_ctx_error_without_cancel : accepted [LCall 0 KJoin 0; LPush 0; LPushed 0; LRet 0 OCtxErr] = false.
+Example ex_no_ctx_error_without_cancel : accepted (join0 ++ [LRet 0 OCtxErr]) = false.
 Proof. vm_compute. reflexivity. Qed.
 Example ex_no_second_return : accepted (ex_join_error ++ [LRet 0 OStanzaErr]) = false.
 Proof. vm_compute. reflexivity. Qed.
+Example ex_no_call_on_unmade_channel : accepted [LCall 0 KJoin 0] = false /\ accepted [LNew 1 0] = false.
+Proof. vm_compute. split; reflexivity. Qed.
 
 (* the departure handled before Leave reaches its select is kept (the fixed defect) *)
 Example ex_departure_kept : accepted
-  [LCall 0 KJoin 0; LPush 0; LPushed 0; LDeliver (PresAvail 0); LRet 0 OSuccess;
-   LCall 1 KLeave 0; LDeliver (PresUnavail 0); LDeliver Other; LCancel 0; LRet 1 OSuccess] = true.
+  (join0 ++ [LDeliver (PresAvail 0); LRet 0 OSuccess;
+   LCall 1 KLeave 0; LDeliver (PresUnavail 0); LDeliver Other; LCancel 0; LRet 1 OSuccess]) = true.
 Proof. vm_compute. reflexivity. Qed.
 
 (* rejoin after leaving completes (the fixed defect), and a kick's stale notification is dropped *)
@@ -60,50 +65,103 @@ Example ex_stale_notification_dropped : accepted
                     LDeliver (PresAvail 0); LRet 3 OSuccess; LCall 4 KLeave 0; LRet 4 OSuccess]) = false.
 Proof. vm_compute. reflexivity. Qed.
 
-(* hypotheses of C18_join_success_only_after_self_presence / C18_leave_... / C18_stanza_error_... / C18_context_error_otherwise *)
-Example hyp_join_success : exists s, exec ([LCall 0 KJoin 0; LPush 0; LPushed 0; LDeliver (PresAvail 0)] ++ [LRet 0 OSuccess]) = Some s.
+(* ---- several Channels for one occupant address ---- *)
+
+(* Channel 0 is joined; a second Client.Join for the same address (Channel 1) is given up; Channel 0
+   re-synchronizes: its join call registers it again, the self-presence reaches it and the rejoin
+   succeeds (the history of seeded change m11) *)
+Definition ex_second_join_given_up : list label :=
+  join0 ++ [LDeliver (PresAvail 0); LRet 0 OSuccess;
+            LNew 1 0; LCall 1 KJoin 1; LPush 1; LPushed 1; LCancel 1; LRet 1 OCtxErr; LQuery 0 true; LQuery 1 false].
+Example ex_resync_after_second_join : accepted
+  (ex_second_join_given_up ++ [LCall 2 KJoin 0; LPush 2; LPushed 2; LDeliver (PresAvail 0); LRet 2 OSuccess;
+                               LQuery 0 true; LCall 3 KLeave 0; LDeliver (PresUnavail 0); LRet 3 OSuccess; LQuery 0 false]) = true.
+Proof. vm_compute. reflexivity. Qed.
+(* without the re-registration the presence would be taken by the abandoned Channel 1 (its stale
+   context, then the callback): the model has no such run *)
+Example ex_presence_not_to_abandoned_channel : accepted
+  (ex_second_join_given_up ++ [LCall 2 KJoin 0; LPush 2; LPushed 2; LDeliver (PresAvail 0); LSeeDone]) = false.
+Proof. vm_compute. reflexivity. Qed.
+(* before Channel 0 re-registers, the room's presence does go to Channel 1: stale context, then callback *)
+Example ex_presence_to_registered_channel :
+  option_map cb_pres (exec (ex_second_join_given_up ++ [LDeliver (PresAvail 0); LSeeDone])) = Some [0].
+Proof. vm_compute. reflexivity. Qed.
+(* the second Client.Join succeeds: both Channels are members; the unavailable presence reaches the
+   registered one only (known finding: the first stays joined) *)
+Example ex_second_join_succeeds : accepted
+  (join0 ++ [LDeliver (PresAvail 0); LRet 0 OSuccess;
+             LNew 1 0; LCall 1 KJoin 1; LPush 1; LPushed 1; LDeliver (PresAvail 0); LRet 1 OSuccess;
+             LQuery 0 true; LQuery 1 true; LCall 2 KLeave 0; LDeliver (PresUnavail 0); LQuery 1 false; LQuery 0 true;
+             LCancel 2; LRet 2 OCtxErr]) = true.
+Proof. vm_compute. reflexivity. Qed.
+(* ... and fails with the room's error: Channel 0 is still a member and still not registered *)
+Example ex_second_join_refused :
+  option_map (fun s => (ch_joined (chans s 0), table s 0)) (exec
+  (join0 ++ [LDeliver (PresAvail 0); LRet 0 OSuccess;
+             LNew 1 0; LCall 1 KJoin 1; LPush 1; LPushed 1; LDeliver (ErrReply 1); LRet 1 OStanzaErr])) = Some (true, Some 1).
+Proof. vm_compute. reflexivity. Qed.
+(* two Channels of one address with joins in flight at once: the presence completes the one registered last *)
+Example ex_two_pending_joins : accepted
+  (join0 ++ [LNew 1 0; LCall 1 KJoin 1; LPush 1; LPushed 1; LDeliver (PresAvail 0); LRet 1 OSuccess;
+             LDeliver (PresAvail 0); LCancel 0; LRet 0 OCtxErr]) = true /\
+  accepted (join0 ++ [LNew 1 0; LCall 1 KJoin 1; LPush 1; LPushed 1; LDeliver (PresAvail 0); LRet 0 OSuccess]) = false.
+Proof. vm_compute. split; reflexivity. Qed.
+
+(* hypotheses of C18_join_success_only_after_self_presence / C18_join_call_registers / C18_leave_... /
+   C18_stanza_error_... / C18_context_error_otherwise *)
+Example hyp_join_success : exists s, exec ((join0 ++ [LDeliver (PresAvail 0)]) ++ [LRet 0 OSuccess]) = Some s.
 Proof. eexists. vm_compute. reflexivity. Qed.
-Example hyp_leave_success : exists s, exec ([LCall 0 KJoin 0; LCall 1 KJoin 1; LCancel 0; LRet 0 OCtxErr; LCall 2 KLeave 0; LDeliver (PresUnavail 0)] ++ [LRet 2 OSuccess]) = Some s.
+Example hyp_join_call : exists s, exec (ex_second_join_given_up ++ [LCall 2 KJoin 0]) = Some s.
 Proof. eexists. vm_compute. reflexivity. Qed.
-Example hyp_stanza_error : exists s, exec ([LCall 0 KJoin 0; LPush 0; LPushed 0; LDeliver (ErrReply 0)] ++ [LRet 0 OStanzaErr]) = Some s.
+Example hyp_leave_success : exists s, exec ([LNew 0 0; LCall 0 KJoin 0; LNew 1 1; LCall 1 KJoin 1; LCancel 0; LRet 0 OCtxErr; LCall 2 KLeave 0; LDeliver (PresUnavail 0)] ++ [LRet 2 OSuccess]) = Some s.
 Proof. eexists. vm_compute. reflexivity. Qed.
-Example hyp_ctx_error : exists s, exec ([LCall 0 KJoin 0; LPush 0; LPushed 0; LDeliver (PresAvail 0); LCancel 0] ++ [LRet 0 OCtxErr]) = Some s.
+Example hyp_stanza_error : exists s, exec ((join0 ++ [LDeliver (ErrReply 0)]) ++ [LRet 0 OStanzaErr]) = Some s.
+Proof. eexists. vm_compute. reflexivity. Qed.
+Example hyp_ctx_error : exists s, exec ((join0 ++ [LDeliver (PresAvail 0); LCancel 0]) ++ [LRet 0 OCtxErr]) = Some s.
 Proof. eexists. vm_compute. reflexivity. Qed.
 
-(* hypotheses of C18_error_reply_is_returned and C18_self_presence_completes_join: a waiting join *)
+(* hypotheses of C18_error_reply_is_returned, C18_self_presence_completes_join and
+   C18_presence_goes_to_registered_channel: a waiting join on Channel 0 of address 3 *)
 Example hyp_waiting_join : exists s c,
-  exec [LCall 0 KJoin 3; LPush 0; LPushed 0] = Some s /\ srv s = SIdle /\ calls s 0 = Some c /\
-  c_phase c = PWait /\ c_done c = false /\ c_replied c = false /\ c_kind c = KJoin /\ c_addr c = 3 /\
-  ch_entry (chans s 3) = true /\ ch_jq (chans s 3) = [0].
+  exec [LNew 0 3; LCall 0 KJoin 0; LPush 0; LPushed 0] = Some s /\ srv s = SIdle /\ calls s 0 = Some c /\
+  c_phase c = PWait /\ c_done c = false /\ c_replied c = false /\ c_kind c = KJoin /\ c_chan c = 0 /\
+  table s 3 = Some 0 /\ ch_jq (chans s 0) = [0].
 Proof. eexists. eexists. vm_compute. repeat split; reflexivity. Qed.
 
 (* hypotheses of C18_stale_join_context_skipped: a failed join's context ahead of a blocked publisher *)
 Example hyp_stale_context : exists s c0 c,
-  exec [LCall 0 KJoin 2; LPush 0; LPushed 0; LDeliver (ErrReply 0); LRet 0 OStanzaErr; LCall 1 KJoin 2; LPush 1] = Some s /\
-  srv s = SIdle /\ ch_entry (chans s 2) = true /\ ch_jq (chans s 2) = [0; 1] /\
-  calls s 0 = Some c0 /\ c_done c0 = true /\ c_addr c0 = 2 /\
-  calls s 1 = Some c /\ c_kind c = KJoin /\ c_addr c = 2 /\ c_phase c = PQueued.
+  exec [LNew 0 2; LCall 0 KJoin 0; LPush 0; LPushed 0; LDeliver (ErrReply 0); LRet 0 OStanzaErr; LCall 1 KJoin 0; LPush 1] = Some s /\
+  srv s = SIdle /\ table s 2 = Some 0 /\ ch_jq (chans s 0) = [0; 1] /\
+  calls s 0 = Some c0 /\ c_done c0 = true /\ c_chan c0 = 0 /\
+  calls s 1 = Some c /\ c_kind c = KJoin /\ c_chan c = 0 /\ c_phase c = PQueued.
 Proof. do 3 eexists. vm_compute. repeat split; reflexivity. Qed.
 
 (* hypotheses of C18_unavailable_completes_leave / C18_departure_notification_kept *)
 Example hyp_waiting_leave : exists s c,
-  exec [LCall 0 KJoin 1; LPush 0; LPushed 0; LDeliver (PresAvail 1); LRet 0 OSuccess; LCall 1 KLeave 1] = Some s /\
-  srv s = SIdle /\ ch_entry (chans s 1) = true /\ calls s 1 = Some c /\ c_kind c = KLeave /\ c_addr c = 1 /\ c_phase c = PWait.
+  exec [LNew 0 1; LCall 0 KJoin 0; LPush 0; LPushed 0; LDeliver (PresAvail 1); LRet 0 OSuccess; LCall 1 KLeave 0] = Some s /\
+  srv s = SIdle /\ table s 1 = Some 0 /\ calls s 1 = Some c /\ c_kind c = KLeave /\ c_chan c = 0 /\ c_phase c = PWait.
 Proof. do 2 eexists. vm_compute. repeat split; reflexivity. Qed.
 Example hyp_kept : exists s c,
-  exec [LCall 0 KJoin 1; LPush 0; LPushed 0; LDeliver (PresAvail 1); LRet 0 OSuccess; LCall 1 KLeave 1; LDeliver (PresUnavail 1)] = Some s /\
-  calls s 1 = Some c /\ c_kind c = KLeave /\ c_phase c = PWait /\ ch_dep (chans s (c_addr c)) = true.
+  exec [LNew 0 1; LCall 0 KJoin 0; LPush 0; LPushed 0; LDeliver (PresAvail 1); LRet 0 OSuccess; LCall 1 KLeave 0; LDeliver (PresUnavail 1)] = Some s /\
+  calls s 1 = Some c /\ c_kind c = KLeave /\ c_phase c = PWait /\ ch_dep (chans s (c_chan c)) = true.
 Proof. do 2 eexists. vm_compute. repeat split; reflexivity. Qed.
 
-(* hypothesis of C18_membership_window_partial with a non-trivial window; the spec itself *)
-Example hyp_window : member_window ex_join_part 0 = false /\ member_window (firstn 6 ex_join_part) 0 = true /\
-  member_window (firstn 4 ex_join_part) 0 = false /\ member_window ex_join_part 1 = false.
+(* hypotheses of C18_membership_window_partial with a non-trivial window; the spec itself *)
+Example hyp_window : member_window ex_join_part 0 = false /\ member_window (firstn 7 ex_join_part) 0 = true /\
+  member_window (firstn 5 ex_join_part) 0 = false /\ member_window ex_join_part 1 = false.
 Proof. vm_compute. repeat split; reflexivity. Qed.
 Example hyp_window_free : forall k, In (LRet k OStanzaErr) ex_join_part -> ~ In (LCall k KLeave 0) ex_join_part.
 Proof. intros k H. cbn in H. repeat (destruct H as [H|H]; [discriminate H|]). destruct H. Qed.
+Example hyp_never_orphaned : never_orphaned ex_join_part 0 /\
+  never_orphaned (ex_second_join_given_up ++ [LCall 2 KJoin 0; LPush 2; LPushed 2; LDeliver (PresAvail 0); LRet 2 OSuccess;
+                                              LCall 3 KLeave 0; LDeliver (PresUnavail 0)]) 0.
+Proof. split; apply never_orphaned_b_sound; vm_compute; reflexivity. Qed.
+(* ... and it fails where the known finding is: the orphan history *)
+Example ex_orphaned : never_orphaned_b init orphan_trace 0 = false.
+Proof. vm_compute. reflexivity. Qed.
 
-(* C18_unjoined_rooms_ignored: address 7 was never joined, the handler is idle, other rooms are busy *)
-Example hyp_unjoined : exists s, exec ex_join_error = Some s /\ srv s = SIdle /\ (forall k, ~ In (LCall k KJoin 7) ex_join_error).
+(* C18_unjoined_rooms_ignored: no Channel was ever made for address 7, the handler is idle, other rooms are busy *)
+Example hyp_unjoined : exists s, exec ex_join_error = Some s /\ srv s = SIdle /\ (forall h, ~ In (LNew h 7) ex_join_error).
 Proof.
   eexists. split; [vm_compute; reflexivity|]. split; [reflexivity|].
   intros k H. cbn in H. repeat (destruct H as [H|H]; [discriminate H|]). destruct H.
@@ -112,9 +170,9 @@ Qed.
 (* ... the same presence with a payload that does not decode: ignored for address 7, fatal for the
    managed address 0 (hypotheses of C18_managed_bad_payload_ends_serve) *)
 Example ex_bad_payload_unjoined :
-  option_map srv (exec (ex_join_error ++ [LDeliver (PresBad 7); LDeliver (PresAvail 7); LCall 1 KJoin 7])) = Some SIdle.
+  option_map srv (exec (ex_join_error ++ [LDeliver (PresBad 7); LDeliver (PresAvail 7); LNew 1 7; LCall 1 KJoin 1])) = Some SIdle.
 Proof. vm_compute. reflexivity. Qed.
-Example hyp_bad_payload_managed : exists s, exec ex_join_error = Some s /\ srv s = SIdle /\ ch_entry (chans s 0) = true.
+Example hyp_bad_payload_managed : exists s, exec ex_join_error = Some s /\ srv s = SIdle /\ table s 0 = Some 0.
 Proof. eexists. split; [vm_compute; reflexivity|]. split; reflexivity. Qed.
 Example ex_bad_payload_managed :
   option_map srv (exec (ex_join_error ++ [LDeliver (PresBad 0)])) = Some SDead /\
